@@ -3,3 +3,4 @@ pub mod soup;
 pub mod decl;
 pub mod c14_layout;
 pub mod c05_res;
+pub mod c18_gen;
